@@ -84,6 +84,18 @@ def main(pid, argv):
             secs, meta = C.gen_service(rng, simple_scripts=(rng.random() < 0.5))
             known = list(meta["scripts"].keys())
             data = base_stream(rng, meta)
+            fixed_no = len([m for m in metas]) // 7
+            if fixed_no % 3 == 1:
+                # every few services: a complete value followed by more bytes inside one frame, between two ordinary calls
+                small = lambda: S.call_bytes(rng, rng.choice(known + [b"org.varlink.service.GetInfo"]), None, False, False, False) + b"\x00"
+                data = small() + S.call_bytes(rng, rng.choice(known + [b"org.varlink.service.GetInfo"]), rng.choice([None, b"{}"]), False, False, False) + \
+                    rng.choice([b" junk", b"]", b"}", b",", b"{}", b" null", b"0"]) + b"\x00" + small()
+            if len(lines) % 7 == 0 or not lines:
+                # every few services: a stream that certainly contains a call longer than the read buffer, between two ordinary ones
+                small = lambda: S.call_bytes(rng, rng.choice(known + [b"org.varlink.service.GetInfo"]), None, False, False, False) + b"\x00"
+                bigc = S.call_bytes(rng, rng.choice(known + [b"org.varlink.service.GetInfo"]), b'{"pad":"' + b"p" * rng.choice([4090, 4200, 9000, 70000]) + b'"}',
+                                    False, False, False) + b"\x00"
+                data = small() + bigc + small()
             cuts = list(range(len(data) + 1)) if len(data) <= 300 else sorted(rng.sample(range(len(data) + 1), 300))
             if len(data) > 300:
                 # always: the whole stream, and the stream up to the end of each frame (and one byte less)
